@@ -14,24 +14,24 @@ CHECKS.update({
    text="Every rule and every (rule, position, child rule) pair of both grammars (thorough: nullable combinations and 3-paths) is driven through the real scanner, parser and printer in baseline layout, with unique trivia in every gap, with every 1-deviation of trivia and lexeme (thorough: 2-deviations), under every version of its family, plus heads x bodies x tails, literal forms and multi-thousand-token programs under production pools; printed bytes must equal the source. Complete for the sentence sets and alphabets listed; nesting deeper than 3 rules and longer programs are not explored.",
    note="Trusted: goyacc -v output for the current grammar (sentence generator), M-lex rendering; validity of a program is decided by the real parser reporting zero errors.", ref="§C02"),
  "C04": dict(cat="exploration", tech="exhaustive exploration of LR-corpus programs x line-terminator/trivia deviations against a reference line counter, classifier and tiling oracle",
-   text="Same program space as C02 plus driver-invalid sentences, large programs in LF/CRLF/CR and short byte strings; on every returned tree every token and free-floating token is compared with the source bytes at its offsets and with a reference line counter, print order must be offset order, and error-free trees must tile the source with correctly classified trivia and leaf values equal to token text.",
+   text="Same program space as C02 plus driver-invalid sentences, large programs in LF/CRLF/CR and every byte string of <= 2 (thorough 3) symbols over the 70-symbol alphabet from 15 scanner contexts; on every returned tree every token and free-floating token is compared with the source bytes at its offsets and with a reference line counter, print order must be offset order, and error-free trees must tile the source with correctly classified trivia and leaf values equal to token text.",
    note="Trusted: reflection walk in print order (mc/astx), reference line counter and classifier (mc/lexm).", ref="§C04"),
  "C05": dict(cat="exploration", tech="exhaustive exploration of every grammar rule in every parent slot; positions recomputed from the token spans of each subtree",
    text="Every position-building action of both grammars is executed in several contexts (rules, 2-paths, nullable combinations; thorough: 3-paths and deviations) in single-line and multi-line layouts; each node's recorded span and lines are recomputed from the tokens of its own subtree with the four documented conventions; nesting and sibling order are checked; a wrong boundary is blamed on the innermost node.",
    note="Trusted: token positions (C04). Known findings: try{} end, ${a[0]} end, PHP 5 goto label (all asserted by the suite).", ref="§C05"),
  "C12": dict(cat="exploration", tech="exhaustive slot enumeration of all node kinds (depth 1 and 2) under a recording visitor vs reflection pre-order",
-   text="Complete over the 155 kinds: every presence/absence assignment of child slots (lists of 1..3), with and without tokens, and every kind in every child slot of every kind (depth 2); the real traverser's callback sequence must equal the reflection pre-order. Complete for the tree shapes listed; parsed corpus trees are added as a further slice.",
+   text="Complete over the 155 kinds: every presence/absence assignment of child slots (lists of 1..3), with and without tokens, and every kind in every child slot of every kind (depth 2); the real traverser's callback sequence must equal the reflection pre-order. Part C: every tree the real parser returns for the widest corpus (rules, 2-paths, nullable combinations, 3-paths, pairs of positions, specials): traversal == pre-order, no node object reachable along two paths, children in source order. Complete for the shapes and programs listed.",
    note="Trusted: Go reflection; field order of pkg/ast is source order.", ref="§C12"),
  "C15": dict(cat="exploration", tech="exhaustive slot enumeration of all node kinds with unique markers through the real printer, judged against a slot vocabulary",
-   text="Complete over the 155 kinds x every presence/absence assignment of token, child, value and (items, separators) slots x two printer start states: every present marker once, in order, free-floating before its token; text between markers must be glue or the canonical lexeme of an absent slot declared there.",
+   text="Complete over the 155 kinds x every presence/absence assignment of token, child, value and (items, separators) slots x two printer start states: every present marker once, in order, free-floating before its token; text between markers must be glue or the canonical lexeme of an absent slot declared there. On parsed corpus trees (rules + 2-paths; thorough: widest corpus): every node replaced in turn by a marker leaf must change only that subtree's portion of the printed text.",
    note="Trusted: slot vocabulary (mc/slotm) written from the PHP manual; unknown slots are unconstrained and listed in the evidence.", ref="§C15"),
  "C16": dict(cat="exploration", tech="exhaustive field-subset enumeration of all node kinds x 4 dumper options, dump read back with go/parser and compared with a reflection walk",
-   text="Complete over the 155 kinds x every subset of all fields x the four option combinations (1.7M dumps in the quick tier): the dump must parse as one Go composite literal whose type, keys and contents equal the reflection walk.",
+   text="Complete over the 155 kinds x every subset of all fields x the four option combinations (1.7M dumps in the quick tier): the dump must parse as one Go composite literal whose type, keys and contents equal the reflection walk; the same for every parsed corpus tree (28 k dumps quick).",
    note="Trusted: go/parser, strconv.Unquote.", ref="§C16"),
 })
 CHECKS.update({
  "C01": dict(cat="exploration", tech="small-scope exhaustive input exploration (all strings up to n symbols x 15 scanner contexts x versions x callback) + every byte-prefix of the LR corpus + every (LALR state, terminal) cell, under a deterministic step budget",
-   text="Every string of <= 3 symbols over a 70-symbol alphabet (all byte literals of scanner.rl, class representatives, mode-switching fragments) from each of 15 start contexts under 7.4/5.6/7.2 x {callback, nil} (thorough: + 4 symbols under 7.4, <= 5 symbols over the 28-symbol core), <= 2 core symbols under all 12 versions; every byte-prefix of every rule-level corpus program (thorough 2-path) in three line-terminator layouts; every (state, terminal) cell of both LALR automata; a scaling ladder. No panic, scanner restarts + Lex calls <= 64+16*len, input buffer unchanged, err == nil. Inputs longer than the bounds are not explored.",
+   text="Every string of <= 3 symbols over a 70-symbol alphabet (all byte literals of scanner.rl, class representatives, mode-switching fragments) from each of 15 start contexts under 7.4/5.6/7.2 x {callback, nil} (thorough: + 4 symbols under 7.4, <= 5 symbols over the 28-symbol core), <= 2 core symbols under all 12 versions; every byte-prefix of every rule-level corpus program (thorough 2-path) in three line-terminator layouts; every (state, terminal) cell of both LALR automata; a scaling ladder. every corpus program up to pairs of rule positions; a scaling ladder. No panic, scanner restarts + Lex calls <= 64+16*len, input buffer unchanged (parses run on a write-protected mapping, so any store into the input faults), err == nil. Inputs longer than the bounds are not explored.",
    note="Trusted: the overlay hooks (Tick after `_again:`, Point in Parser.Lex) see every scanner restart; eight crash/hang root causes found by this check were repaired (fixed: lines in KNOWN_FINDINGS.txt).", ref="§C01"),
  "C10": dict(cat="exploration", tech="exhaustive exploration of the sentences both LALR automata accept (rules, 2-paths, trivia and lexeme deviations), trees under 5.6 and 7.4 compared field by field",
    text="Every program of the E-lr corpora of both grammars (+1-deviations of trivia and lexemes, specials) that both reference LR drivers accept on the tokens the real scanner returns, minus a token-level superset of uniform-variable-syntax and yield-as-operator patterns: the 5.6 and 7.4 trees must be identical in kinds, nesting, values, tokens, free-floating tokens and positions, and both error lists equal.",
@@ -62,7 +62,7 @@ CHECKS.update({
 })
 CHECKS.update({
  "C11": dict(cat="exploration", tech="stateless model checking: bounded-preemption depth-first enumeration of all schedules of 2-3 real pipelines under a cooperative scheduler with hooked yield points; free-running -race pass as a complement",
-   text="12 two-pipeline scenarios (and one three-pipeline scenario) of parse -> print -> dump -> resolve on goroutines under a cooperative scheduler: ALL schedules with <= 1 preemption over every yield point (Lex calls, scanner restarts, error callbacks, every printer/dumper write, resolver enter/leave) and ALL schedules with <= 2 preemptions over the coarser point set; every observation of every pipeline must equal its sequential baseline. Thorough adds three longer pipelines, bound 3 on short programs and bound 2 over all points. More than 3 pipelines and interference between yield points are not explored (the latter is sampled by the -race pass).",
+   text="12 two-pipeline scenarios (and one three-pipeline scenario) of parse -> print -> dump -> resolve on goroutines under a cooperative scheduler: ALL schedules with <= 1 preemption over every yield point (Lex calls, scanner restarts, error callbacks, every printer/dumper write, resolver enter/leave) and ALL schedules with <= 2 preemptions over the coarser point set; every observation of every pipeline must equal its sequential baseline; plus all sequential histories of <= 3 pipelines over 14 programs (the last result must not depend on its predecessors). Thorough adds three longer pipelines, bound 3 on short programs and bound 2 over all points. More than 3 pipelines and interference between yield points are not explored (the latter is sampled by the -race pass).",
    note="Trusted: the overlay hooks see every Lex call and scanner restart. The -race pass (16 goroutines x 6 rounds x 89 pipelines, results compared with sequential baselines) is sampling.", ref="§C11"),
  "C14": dict(cat="model_checking", tech="exhaustive enumeration of the reference name-resolution model's program space (namespace forms x import sets and pairs x reference positions x name forms), each program replayed on the real parser+resolver and compared entry by entry",
    text="9 namespace forms x (18 import sets + all compatible ordered pairs) x 40 reference positions x 35 names under 7.4 and 5.6, plus multi-reference programs: ResolvedNames must contain exactly the entries the reference resolver (a transcription of the manual's name resolution rules) predicts - missing, wrong and extra entries are all violations.",
